@@ -56,6 +56,11 @@ def run(ctx):
         for n in (CLOCKS[:4] if (ts is None or ex is None) else CLOCKS[:1]):
             cases.append({"w": wire.case("build_root_metadata", n + 1, n, ver, rk, rt, kk, kt, ts, ex), "meta": {"tag": "valid", "fn": "brm"}})
 
+    # keys shared between the root and the key_mgr role are valid arguments
+    for rk, kk in (([k[0], k[1]], [k[0]]), ([k[0]], [k[0]]), ([k[0], k[1], k[2]], [k[2], k[1]])):
+        for ts, ex in ((M.TS, M.EX), (None, None)):
+            cases.append({"w": wire.case("build_root_metadata", CLOCKS[0] + 1, CLOCKS[0], 3, rk, 1, kk, 1, ts, ex), "meta": {"tag": "valid", "fn": "brm"}})
+
     def rel(c, io, mo):
         return None if io == mo else "builder outcome differs: implementation %s ... model %s ..." % (io[:120], mo[:120])
 
@@ -96,6 +101,9 @@ def run(ctx):
         return None
     impl, mdl = core.run_stream(ctx, core.Stream("builders: valid tuples x clock reads at calendar boundaries, every single mutation of every argument",
                                                  cases, rel, oracle, nontrivial=lambda c, i, m: True))
+    # the valid tuples again with warnings escalated to errors: a valid argument tuple yields metadata in every environment
+    vsub = [c for c in cases if c["meta"]["tag"] == "valid"][:: (8 if ctx.quick else 1)] + cases[-6:]
+    core.run_stream(ctx, core.Stream("builders on valid tuples with warnings escalated to errors (PYTHONWARNINGS=error)", vsub, rel, oracle, env={"PYTHONWARNINGS": "error"}))
     # chain readiness: a root built at version n+1, signed by enough keys of the previous and of its own root rule, succeeds the previous one
     chain = []
     prev_md = M.root_md(4, (0, 1), 2)
